@@ -2287,6 +2287,13 @@ def struct_model(fr, fn, args, kw, n):
             if code == "?":
                 out.append(AInt([OB("struct '?' truthiness")], isbool=True) if False else I.opaque("struct ? field"))
                 continue
+            sm = I.simp_bits(msb)
+            if all(isinstance(x, F) and x.is_const for x in sm):
+                val = int("".join(str(x.c) for x in sm), 2)
+                if code in "bhilq" and sm[0].c:
+                    val -= 1 << len(sm)
+                out.append(val)                 # a constant field is a plain (possibly negative) integer
+                continue
             v = AInt(list(reversed(msb)))
             if code in "bhilq":
                 v.signed = True
